@@ -139,7 +139,7 @@ crate::inst! { [stub_sort_char]
     jac_hist_2_2_0_3 = history<2,2,0,3>; jac_hist_2_2_1_3 = history<2,2,1,3>; jac_hist_2_3_1_5 = history<2,3,1,5>;
     jac_hist_3_3_5_1 = history<3,3,5,1>; jac_hist_3_2_3_2 = history<3,2,3,2>;
     jac_hist_4_4_6_1 = history<4,4,6,1>; jac_hist_4_3_1_6 = history<4,3,1,6>;
-    jac_cap_2_3_1_1 = history_cap<2,3,1,1>; jac_cap_3_2_1_2 = history_cap<3,2,1,2>; jac_cap_2_3_2_2 = history_cap<2,3,2,2>; jac_cap_3_3_2_1 = history_cap<3,3,2,1>;
+    jac_cap_1_3_1_1 = history_cap<1,3,1,1>; jac_cap_3_1_1_1 = history_cap<3,1,1,1>; jac_cap_2_3_1_1 = history_cap<2,3,1,1>; jac_cap_3_2_1_2 = history_cap<3,2,1,2>; jac_cap_2_3_2_2 = history_cap<2,3,2,2>; jac_cap_3_3_2_1 = history_cap<3,3,2,1>;
     jac_simple_3_3 = simple<3,3>; jac_simple_2_4 = simple<2,4>; jac_simple_4_4 = simple<4,4>;
     jac_simple_5_5 = simple<5,5>; jac_simple_0_3 = simple<0,3>; jac_simple_6_6 = simple<6,6>;
 }
